@@ -10,6 +10,11 @@ CLAIMS = {
   "note": "Decides per-arm correctness (sign per ordering), which implies reflexivity/antisymmetry; transitivity is argued from each arm being the standard order of a totally ordered carrier. Trusted: go/types, the interpreter in engine/absint, third-party btree/hashmap honouring their comparator contracts.",
   "technique": "finite-domain abstract interpretation over the AST (path-sensitive, product with reference automaton for loops)",
  },
+ "C11": {
+  "text": "AND/OR are decided for every arity and operand order by exploring the loop of (*And).Evaluate / (*Or).Evaluate as a product with the Kleene reference automaton (operand classes TRUE/FALSE/NULL/error) until the (implementation state, reference state) pairs repeat; (*FunctionCall).Evaluate is shown to return NULL without calling the function whenever a null-checked argument is NULL; the strictness table is read from the FunctionMap literal (comparisons, arithmetic, string and conversion functions Strict; IS [NOT] NULL non-strict and Boolean-only, evaluated for NULL and non-NULL arguments); NOT by truth table; the Filter callback is evaluated for predicate TRUE/FALSE/NULL/non-Boolean/error; the typechecker's and the materializer's strict-null predicates are compared by truth table over the type relation.",
+  "note": "Does not decide the values comparison functions return on non-NULL arguments (C09/C13). Trusted: go/types, the interpreter in engine/absint, the expected strictness table in props/c11.go.",
+  "technique": "finite-domain abstract interpretation (loop × reference-automaton product) + table extraction from composite literals",
+ },
 }
 
 NOT_APPLICABLE = {
